@@ -98,7 +98,7 @@ static void handle(int argc, char **argv) {
         if (rc == CIF_OK && dest) { for (i = 0; dest[i]; i++) free(dest[i]); free(dest); }
         for (i = 0; i < n; i++) free(src[i]);
         free(src);
-    } else if (argc >= 4 && !strcmp(argv[1], "clone")) {
+    } else if (argc >= 4 && (!strcmp(argv[1], "clone") || !strcmp(argv[1], "vclone"))) {
         cif_value_tp *v, *w = NULL;
         pos = 2;
         v = mk(argv, argc, &pos);
@@ -106,6 +106,17 @@ static void handle(int argc, char **argv) {
         verif_arm(0, atol(argv[pos]));
         ARM(); rc = cif_value_clone(v, &w); DISARM();
         summary(rc);
+        if (rc == CIF_OK && !w) OUT(" !NOCLONE");
+        if (rc != CIF_OK && w) OUT(" !CLONESET");
+        if (rc == CIF_OK && w) {
+            /* the clone equals the source (dump through the public query API; walks both completely under ASan) */
+            char *a = NULL, *b = NULL; size_t sa = 0, sb = 0;
+            FILE *fa = open_memstream(&a, &sa), *fb = open_memstream(&b, &sb);
+            fdump_value(fa, w); fdump_value(fb, v);
+            fclose(fa); fclose(fb);
+            if (!a || !b || strcmp(a, b)) OUT(" !NEWVALUE");
+            free(a); free(b);
+        }
         /* "shares no storage … modifying either leaves the other intact": grow the clone and the original when they are lists */
         if (rc == CIF_OK && w && cif_value_kind(w) == CIF_LIST_KIND) {
             cif_value_tp *filler = NULL; int i;
@@ -211,7 +222,7 @@ static void handle(int argc, char **argv) {
         cif_value_free(w); cif_value_free(tbl); cif_packet_free(pkt); cif_value_free(hi); cif_value_free(val);
         for (i = 0; i < n; i++) free(keys[i]);
         free(keys); free(key);
-    } else if (argc >= 4 && !strcmp(argv[1], "deser")) {
+    } else if (argc >= 4 && (!strcmp(argv[1], "deser") || !strcmp(argv[1], "vdeser"))) {
         /* serialise a list value (un-armed), then deserialise the blob onto a fresh value object, as GET_VALUE_PROPS does */
         cif_value_tp *v, *dest = NULL;
         buffer_tp *buf = NULL;
